@@ -559,7 +559,7 @@ package server
 //@ requires service != nil && r.services != nil && service.pauseController != nil && !isnil(service.middleware) && (targetSlot == TargetSlotRollout ==> service.active != nil)
 //@ attr blocks
 //@ assigns *
-//@ ensures[C01,C06] waits_for_every_new_target_first: all(UpdateLB, before(WaitHealthy($1, deployTimeout), UpdateLB($0, $1, targetSlot, $3)) && $0 == ref(service))
+//@ ensures[C01,C06,C02] waits_for_every_new_target_first: all(UpdateLB, before(WaitHealthy($1, deployTimeout), UpdateLB($0, $1, targetSlot, $3)) && $0 == ref(service))
 //@ ensures[C01,C06] unhealthy_targets_never_installed: emitted(WaitHealthy(_, _)) && none(UpdateLB) ==> err != nil && none(Install) && all(NewLB, emitted(Dispose($0)))
 //@ ensures[C01,C02] swap_then_install: first(UpdateLB(_, _, _, _), Install(_, _)) && count(Install(_, _)) <= 1 && count(UpdateLB(_, _, _, _)) <= 1
 //@ ensures[C02,C03] old_targets_drained_after_the_swap: all(DrainAll, before(Install(_, _), DrainAll($0, drainTimeout)) && emitted(UpdateLB(_, _, _, $0)) && $1 == drainTimeout)
